@@ -3,6 +3,7 @@ C15 — the tablet map of a table stays a set of disjoint ranges with latest-win
 Model: `ScyllaVerif/Model/Tablets.lean`; generic helper lemmas: `ScyllaVerif/Proofs/Tablets.lean`.
 -/
 import ScyllaVerif.Model.Tablets
+import ScyllaVerif.Model.TabletsRefresh
 import ScyllaVerif.Proofs.Tablets
 
 namespace ScyllaVerif.Props.C15
@@ -1207,5 +1208,622 @@ example : (parsePayload [0, 0, 0, 8, 0, 0, 0, 0, 0, 0, 0, 1, 0, 0, 0, 8, 0, 0, 0
 example : (match parsePayload [0, 0, 0, 8, 0, 0, 0, 0, 0, 0, 0, 1, 0, 0, 0, 8, 0, 0, 0, 0, 0, 0, 0, 2, 0, 0, 0, 36, 0, 0, 0, 1, 0, 0, 0, 28, 0, 0, 0, 16, 54, 133, 123, 36, 90, 117, 64, 51, 152, 235, 56, 8, 189, 92, 127, 106, 0, 0, 0, 4, 0] with
     | .error .deserialization => true
     | _ => false) = true := by decide
+
+/-! ### metadata refresh: `ClusterState::perform_tablets_maintenance` (`cluster/state.rs`) -/
+
+section Refresh
+open ScyllaVerif.TabletsRefresh
+
+/-- every replica of the tablet is a host of the node map and *is* the `Node` object registered there -/
+def Current (ns : List (Nat × Node)) (t : Tablet) : Prop :=
+  ∀ p ∈ t.replicas.all, alGet p.1.hostId ns = some p.1
+
+/-- the node map is keyed by the nodes' own host ids -/
+def KeyOk (ns : List (Nat × Node)) : Prop := ∀ id n, alGet id ns = some n → n.hostId = id
+
+private theorem alGet_nodesOf (k : Known) (id : Nat) : alGet id (nodesOf k) = (alGet id k).map (·.node) := by
+  induction k with
+  | nil => rfl
+  | cons e k ih =>
+    obtain ⟨k0, v⟩ := e
+    simp only [nodesOf, List.map_cons, alGet] at ih ⊢
+    split
+    · rfl
+    · exact ih
+
+private theorem alGet_alSet {κ β : Type} [DecidableEq κ] (k k' : κ) (v : β) (m : List (κ × β)) :
+    alGet k' (alSet k v m) = if k' = k then some v else alGet k' m := by
+  induction m with
+  | nil =>
+    by_cases h : k' = k
+    · subst h; simp [alSet, alGet]
+    · have h' : ¬ k = k' := fun e => h e.symm
+      simp [alSet, alGet, h, h']
+  | cons e m ih =>
+    obtain ⟨k0, v0⟩ := e
+    by_cases h0 : k0 = k
+    · subst h0
+      by_cases h : k' = k0
+      · subst h; simp [alSet, alGet]
+      · have h' : ¬ k0 = k' := fun e => h e.symm
+        simp [alSet, alGet, h, h']
+    · by_cases h : k' = k
+      · subst h
+        simp only [alSet, h0, if_false, alGet, if_true]
+        rw [ih]; simp
+      · simp only [alSet, h0, if_false, alGet, h]
+        rw [ih]; simp [h]
+
+private theorem mem_resolveAll {tr : Nat → Option Node} {raw : List (Nat × Nat)} {p : Rep}
+    (h : p ∈ resolveAll tr raw) : ∃ id, tr id = some p.1 := by
+  simp only [resolveAll, List.mem_filterMap, Option.map_eq_some_iff] at h
+  obtain ⟨r, _, n, hn, rfl⟩ := h
+  exact ⟨r.1, hn⟩
+
+private theorem resolveAll_current (ns : List (Nat × Node)) (hk : KeyOk ns) (raw : List (Nat × Nat)) :
+    ∀ p ∈ resolveAll (fun id => alGet id ns) raw, alGet p.1.hostId ns = some p.1 := by
+  intro p hp
+  obtain ⟨id, hid⟩ := mem_resolveAll hp
+  have := hk id p.1 hid
+  rw [this]; exact hid
+
+private theorem updateStale_eq_self (rc : List (Nat × Node)) (t : Tablet)
+    (h : ∀ p ∈ t.replicas.all, ∀ n, alGet p.1.hostId rc = some n → n = p.1) : updateStale rc t = t := by
+  have hany : t.replicas.all.any (isStaleRep rc) = false := by
+    cases hx : t.replicas.all.any (isStaleRep rc)
+    · rfl
+    · obtain ⟨p, hp, hs⟩ := List.any_eq_true.mp hx
+      unfold isStaleRep at hs
+      cases hg : alGet p.1.hostId rc with
+      | none => simp [hg] at hs
+      | some n => have := h p hp n hg; simp [hg, this] at hs
+  have hall : t.replicas.all.map (swapNode rc) = t.replicas.all := by
+    have : ∀ p ∈ t.replicas.all, swapNode rc p = p := by
+      intro p hp
+      unfold swapNode
+      cases hg : alGet p.1.hostId rc with
+      | none => rfl
+      | some n => have := h p hp n hg; simp only [this]
+    calc t.replicas.all.map (swapNode rc) = t.replicas.all.map id := List.map_congr_left this
+      _ = t.replicas.all := List.map_id _
+  obtain ⟨f, l, ⟨all, perDc⟩, fl⟩ := t
+  simp only [updateStale, hany, hall, Bool.false_eq_true, if_false] at *
+
+/-- what `perform_tablets_maintenance` hands to `TabletsInfo::perform_maintenance`, as three facts -/
+private structure Handed (old new rc : List (Nat × Node)) (rm : List Nat) : Prop where
+  keyOk : KeyOk new
+  notRemoved : ∀ id, (alGet id old).isSome → id ∉ rm → (alGet id new).isSome
+  sameOrRecreated : ∀ id o n, alGet id old = some o → alGet id new = some n → n = o ∨ alGet id rc = some n
+  recreatedIsNew : ∀ id n, alGet id rc = some n → alGet id new = some n
+
+private theorem current_after_swap {old new rc : List (Nat × Node)} {rm : List Nat} (H : Handed old new rc rm)
+    (t : Tablet) (hm : ∀ p ∈ t.replicas.all, alGet p.1.hostId new = some p.1 ∨ alGet p.1.hostId old = some p.1)
+    (htr : touchesRemoved rm t = false) : Current new (updateStale rc t) := by
+  intro q hq
+  simp only [updateStale, List.mem_map] at hq
+  obtain ⟨p, hp, rfl⟩ := hq
+  unfold swapNode
+  cases hg : alGet p.1.hostId rc with
+  | some n =>
+    have h1 := H.recreatedIsNew _ _ hg
+    have h2 := H.keyOk _ _ h1
+    simp only []
+    rw [h2]; exact h1
+  | none =>
+    simp only []
+    rcases hm p hp with h | h
+    · exact h
+    · have hnot : p.1.hostId ∉ rm := by
+        intro hmem
+        have : touchesRemoved rm t = true := by
+          simp only [touchesRemoved, List.any_eq_true]
+          exact ⟨p, hp, by simpa using hmem⟩
+        rw [htr] at this; cases this
+      have hsome := H.notRemoved _ (by rw [h]; rfl) hnot
+      cases hn : alGet p.1.hostId new with
+      | none => rw [hn] at hsome; cases hsome
+      | some n =>
+        rcases H.sameOrRecreated _ _ _ h hn with e | e
+        · rw [e]
+        · rw [hg] at e; cases e
+
+private theorem table_maint_current {old new rc : List (Nat × Node)} {rm : List Nat} (H : Handed old new rc rm)
+    (tbl : Table) (h : ∀ t ∈ tbl.tablets, Current old t) :
+    ∀ u ∈ (tbl.maintenance rm new rc).tablets, Current new u := by
+  unfold Table.maintenance
+  simp only []
+  have s1 : ∀ t ∈ (if tbl.hasUnknown = true then tbl.tablets.filterMap (reResolve (fun id => alGet id new)) else tbl.tablets),
+      ∀ p ∈ t.replicas.all, alGet p.1.hostId new = some p.1 ∨ alGet p.1.hostId old = some p.1 := by
+    split
+    · intro t1 ht1 p hp
+      obtain ⟨t, ht, e⟩ := List.mem_filterMap.mp ht1
+      unfold reResolve at e
+      cases hf : t.failed with
+      | none =>
+        simp only [hf, Option.some.injEq] at e
+        subst e; exact Or.inr (h t ht p hp)
+      | some raw =>
+        simp only [hf, fromRawReplicas] at e
+        by_cases hc : (resolveFailed (fun id => alGet id new) raw).isEmpty = true
+        · simp only [hc, if_true, Option.some.injEq] at e
+          subst e
+          exact Or.inl (resolveAll_current new H.keyOk raw p hp)
+        · simp [hc] at e
+    · intro t ht p hp; exact Or.inr (h t ht p hp)
+  generalize (if tbl.hasUnknown = true then tbl.tablets.filterMap (reResolve (fun id => alGet id new)) else tbl.tablets) = l1 at s1
+  have s2 : ∀ t ∈ (if rm.isEmpty = true then l1 else l1.filter (fun t => !touchesRemoved rm t)),
+      t ∈ l1 ∧ touchesRemoved rm t = false := by
+    split
+    · rename_i hr
+      have : rm = [] := List.isEmpty_iff.mp hr
+      subst this
+      intro t ht; exact ⟨ht, touchesRemoved_nil t⟩
+    · intro t ht
+      obtain ⟨a, b⟩ := List.mem_filter.mp ht
+      exact ⟨a, by simpa using b⟩
+  generalize (if rm.isEmpty = true then l1 else l1.filter (fun t => !touchesRemoved rm t)) = l2 at s2
+  split
+  · rename_i hr
+    have : rc = [] := List.isEmpty_iff.mp hr
+    subst this
+    intro u hu
+    obtain ⟨a, b⟩ := s2 u hu
+    have := current_after_swap H u (s1 u a) b
+    rwa [updateStale_nil] at this
+  · intro u hu
+    obtain ⟨t2, ht2, rfl⟩ := List.mem_map.mp hu
+    obtain ⟨a, b⟩ := s2 t2 ht2
+    exact current_after_swap H t2 (s1 t2 a) b
+
+private theorem table_maint_dcOk (rm : List Nat) (ns rc : List (Nat × Node)) (tbl : Table)
+    (h : ∀ t ∈ tbl.tablets, DcOk t) : ∀ u ∈ (tbl.maintenance rm ns rc).tablets, DcOk u := by
+  unfold Table.maintenance
+  simp only []
+  have s1 : ∀ t ∈ (if tbl.hasUnknown = true then tbl.tablets.filterMap (reResolve (fun id => alGet id ns)) else tbl.tablets), DcOk t := by
+    split
+    · intro t1 ht1
+      obtain ⟨t, ht, e⟩ := List.mem_filterMap.mp ht1
+      exact dcOk_reResolve (h t ht) e
+    · exact h
+  generalize (if tbl.hasUnknown = true then tbl.tablets.filterMap (reResolve (fun id => alGet id ns)) else tbl.tablets) = l1 at s1
+  have s2 : ∀ t ∈ (if rm.isEmpty = true then l1 else l1.filter (fun t => !touchesRemoved rm t)), DcOk t := by
+    split
+    · exact s1
+    · intro t ht; exact s1 t (List.mem_filter.mp ht).1
+  generalize (if rm.isEmpty = true then l1 else l1.filter (fun t => !touchesRemoved rm t)) = l2 at s2
+  split
+  · exact s2
+  · intro u hu
+    obtain ⟨t2, ht2, rfl⟩ := List.mem_map.mp hu
+    exact dcOk_updateStale rc (s2 t2 ht2)
+
+/-- lifting a per-table fact through `TabletsInfo::perform_maintenance` (tables dropped, empty entries added,
+per-table maintenance run or skipped) -/
+private theorem info_maint_lift (Pold Pnew : Table → Prop) (rm : List Nat) (ns rc : List (Nat × Node))
+    (hempty : Pold Table.empty) (hm : ∀ tbl, Pold tbl → Pnew (tbl.maintenance rm ns rc))
+    (hskip : rm = [] → rc = [] → ∀ tbl, Pold tbl → Pnew tbl)
+    (inf : Info) (h : ∀ e ∈ inf.tables, Pold e.2) (kss : List (String × Bool × List String)) :
+    ∀ e ∈ (inf.maintenance kss rm ns rc).tables, Pnew e.2 := by
+  have inner : ∀ (ksn : String) (tbs : List String) (acc : List ((String × String) × Table)),
+      (∀ e ∈ acc, Pold e.2) →
+      ∀ e ∈ tbs.foldl (fun acc tb =>
+        match alGet (ksn, tb) acc with
+        | some _ => acc
+        | none => acc ++ [((ksn, tb), Table.empty)]) acc, Pold e.2 := by
+    intro ksn tbs
+    induction tbs with
+    | nil => intro acc ha; exact ha
+    | cons tb tbs ih =>
+      intro acc ha
+      simp only [List.foldl_cons]
+      apply ih
+      split
+      · exact ha
+      · intro e he
+        rcases List.mem_append.mp he with hm' | hm'
+        · exact ha e hm'
+        · simp only [List.mem_singleton] at hm'
+          subst hm'; exact hempty
+  have outer : ∀ (kl : List (String × Bool × List String)) (acc : List ((String × String) × Table)),
+      (∀ e ∈ acc, Pold e.2) →
+      ∀ e ∈ kl.foldl (fun acc ks =>
+        if ks.2.1 then ks.2.2.foldl (fun acc tb =>
+          match alGet (ks.1, tb) acc with
+          | some _ => acc
+          | none => acc ++ [((ks.1, tb), Table.empty)]) acc
+        else acc) acc, Pold e.2 := by
+    intro kl
+    induction kl with
+    | nil => intro acc ha; exact ha
+    | cons ks kl ih =>
+      intro acc ha
+      simp only [List.foldl_cons]
+      apply ih
+      split
+      · exact inner ks.1 ks.2.2 acc ha
+      · exact ha
+  have h2 := outer kss (inf.tables.filter (fun e =>
+      match alGet e.1.1 kss with
+      | none => false
+      | some (tabletBased, tables) => tabletBased && tables.contains e.1.2))
+    (fun e he => h e (List.mem_filter.mp he).1)
+  unfold Info.maintenance
+  simp only []
+  split
+  · intro e he
+    obtain ⟨x, hx, rfl⟩ := List.mem_map.mp he
+    exact hm x.2 (h2 x hx)
+  · rename_i hcond
+    simp only [Bool.or_eq_true, Bool.not_eq_true', not_or, Bool.not_eq_false] at hcond
+    have hr : rm = [] := List.isEmpty_iff.mp (by simpa using hcond.1.1)
+    have hc : rc = [] := List.isEmpty_iff.mp (by simpa using hcond.1.2)
+    intro e he
+    exact hskip hr hc e.2 (h2 e he)
+
+private theorem recreated_cons (k0 : Nat) (v : KNode) (old new : Known) :
+    recreatedNodes ((k0, v) :: old) new =
+      match alGet k0 new with
+      | some n => if (n.node != v.node) = true then (k0, n.node) :: recreatedNodes old new else recreatedNodes old new
+      | none => recreatedNodes old new := by
+  simp only [recreatedNodes, List.filterMap_cons]
+  cases alGet k0 new with
+  | none => rfl
+  | some n => by_cases h : (n.node != v.node) = true <;> simp [h]
+
+private theorem handed (old new : Known) (hk : KeyOk (nodesOf new)) :
+    Handed (nodesOf old) (nodesOf new) (recreatedNodes old new) (removedNodes old new) := by
+  refine ⟨hk, ?_, ?_, ?_⟩
+  · intro id hs hnot
+    rw [alGet_nodesOf] at hs ⊢
+    cases hn : alGet id new with
+    | some n => rfl
+    | none =>
+      exfalso
+      apply hnot
+      simp only [removedNodes, List.mem_filter, List.mem_map]
+      cases ho : alGet id old with
+      | none => rw [ho] at hs; cases hs
+      | some o => exact ⟨⟨(id, o), alGet_mem _ _ _ ho, rfl⟩, by simp [hn]⟩
+  · intro id o n ho hn
+    rw [alGet_nodesOf] at ho hn
+    induction old with
+    | nil => simp [alGet] at ho
+    | cons e old ih =>
+      obtain ⟨k0, v⟩ := e
+      simp only [alGet] at ho
+      rw [recreated_cons]
+      by_cases hk0 : k0 = id
+      · subst hk0
+        simp only [if_true, Option.map_some, Option.some.injEq] at ho
+        cases hnn : alGet k0 new with
+        | none => rw [hnn] at hn; cases hn
+        | some kn =>
+          rw [hnn] at hn
+          simp only [Option.map_some, Option.some.injEq] at hn
+          by_cases hne : kn.node = v.node
+          · left; rw [← hn, hne, ho]
+          · right
+            have hb : (n != v.node) = true := by rw [← hn]; simpa using hne
+            simp only [hn, hb, if_true, alGet]
+      · simp only [hk0, if_false] at ho
+        rcases ih ho with r | r
+        · exact Or.inl r
+        · right
+          cases hnn : alGet k0 new with
+          | none => exact r
+          | some kn =>
+            by_cases hb : (kn.node != v.node) = true
+            · simp only [hb, if_true, alGet, hk0, if_false]; exact r
+            · simp only [hb, if_false]; exact r
+  · intro id n hg
+    rw [alGet_nodesOf]
+    have hm := alGet_mem _ _ _ hg
+    simp only [recreatedNodes, List.mem_filterMap] at hm
+    obtain ⟨e, _, he⟩ := hm
+    split at he
+    · rename_i kn hkn
+      split at he
+      · cases he; rw [hkn]; rfl
+      · cases he
+    · cases he
+
+private theorem keyOk_newTopology (old : Known) (gen : Nat) (peers : List Peer) (hk : KeyOk (nodesOf old)) :
+    KeyOk (nodesOf (newTopology old gen peers).1) := by
+  unfold newTopology
+  have key : ∀ (ps : List Peer) (acc : Known × Nat), KeyOk (nodesOf acc.1) →
+      KeyOk (nodesOf (ps.foldl (fun (acc : Known × Nat) p =>
+        let r := nodeFor old acc.2 p
+        (alSet p.hostId r.1 acc.1, r.2)) acc).1) := by
+    intro ps
+    induction ps with
+    | nil => intro acc h; exact h
+    | cons p ps ih =>
+      intro acc h
+      simp only [List.foldl_cons]
+      apply ih
+      intro id n hn
+      rw [alGet_nodesOf, alGet_alSet] at hn
+      by_cases hid : id = p.hostId
+      · simp only [hid, if_true, Option.map_some, Option.some.injEq] at hn
+        rw [hid, ← hn]
+        have hold : ∀ kn, alGet p.hostId old = some kn → kn.node.hostId = p.hostId := by
+          intro kn hkn
+          apply hk p.hostId kn.node
+          rw [alGet_nodesOf, hkn]; rfl
+        unfold nodeFor
+        simp only []
+        split
+        · rename_i kn hkn _
+          split
+          · exact hold kn (by assumption)
+          · rfl
+        · rename_i kn hkn _
+          split
+          · split
+            · exact hold kn (by assumption)
+            · rfl
+          · rfl
+        · rfl
+      · simp only [hid, if_false] at hn
+        apply h id n
+        rw [alGet_nodesOf]; exact hn
+  exact key peers ([], gen) (by intro id n hn; simp [nodesOf, alGet] at hn)
+
+/-- the state invariant of the cluster state's tablet bookkeeping -/
+def StateOk (cs : CState) : Prop :=
+  KeyOk (nodesOf cs.known) ∧
+  ∀ e ∈ cs.info.tables, ∀ t ∈ e.2.tablets, Current (nodesOf cs.known) t ∧ DcOk t
+
+theorem stateOk_init : StateOk CState.init := by
+  refine ⟨?_, ?_⟩
+  · intro id n hn; simp [CState.init, nodesOf, alGet] at hn
+  · intro e he; simp [CState.init, Info.empty] at he
+
+/-- **After any metadata refresh** — old peers → new peers with arbitrary overlap: hosts removed, added, replaced
+in one refresh (however the size of the node map changes), `Node` objects re-created because address,
+datacenter or rack changed — **every replica of every tablet of every table is a host of the new
+`known_nodes` and is the `Node` object registered there** (and the per-datacenter views stay restrictions). -/
+theorem stateOk_refresh (cs : CState) (h : StateOk cs) (peers : List Peer) (kss : List (String × Bool × List String)) :
+    StateOk (refresh cs peers kss) := by
+  obtain ⟨hk, ht⟩ := h
+  have hk' := keyOk_newTopology cs.known cs.gen peers hk
+  refine ⟨hk', ?_⟩
+  have H := handed cs.known (newTopology cs.known cs.gen peers).1 hk'
+  intro e he t htm
+  simp only [refresh, performTabletsMaintenance] at he
+  constructor
+  · have := info_maint_lift (fun tbl => ∀ t ∈ tbl.tablets, Current (nodesOf cs.known) t)
+      (fun tbl => ∀ t ∈ tbl.tablets, Current (nodesOf (newTopology cs.known cs.gen peers).1) t)
+      _ _ _ (by intro t ht'; simp [Table.empty] at ht')
+      (fun tbl hp => table_maint_current H tbl hp)
+      (by
+        intro hr hc tbl hp u hu
+        have hs := current_after_swap H u (fun p hpp => Or.inr (hp u hu p hpp)) (by rw [hr]; exact touchesRemoved_nil u)
+        rw [hc, updateStale_nil] at hs
+        exact hs)
+      cs.info (fun e he t ht' => (ht e he t ht').1) kss e he
+    exact this t htm
+  · have := info_maint_lift (fun tbl => ∀ t ∈ tbl.tablets, DcOk t) (fun tbl => ∀ t ∈ tbl.tablets, DcOk t)
+      (removedNodes cs.known (newTopology cs.known cs.gen peers).1) (nodesOf (newTopology cs.known cs.gen peers).1)
+      (recreatedNodes cs.known (newTopology cs.known cs.gen peers).1)
+      (by intro t ht'; simp [Table.empty] at ht')
+      (fun tbl hp => table_maint_dcOk _ _ _ tbl hp)
+      (fun _ _ tbl hp => hp)
+      cs.info (fun e he t ht' => (ht e he t ht').2) kss e he
+    exact this t htm
+
+/-- learning a tablet (`update_tablets`) keeps the state invariant -/
+theorem stateOk_learn (cs : CState) (h : StateOk cs) (spec : String × String) (first last : Int)
+    (raw : List (Nat × Nat)) : StateOk (learn cs spec first last raw).1 := by
+  obtain ⟨hk, ht⟩ := h
+  refine ⟨hk, ?_⟩
+  have hnew : Current (nodesOf cs.known) (Tablet.fromRaw first last raw (translator cs.known)) ∧
+      DcOk (Tablet.fromRaw first last raw (translator cs.known)) := by
+    refine ⟨?_, dc_restrict_fromRaw _ _ _ _⟩
+    have : translator cs.known = fun id => alGet id (nodesOf cs.known) := by
+      funext id; simp [translator, alGet_nodesOf]
+    rw [this]
+    intro p hp
+    simp only [Tablet.fromRaw, fromRawReplicas] at hp
+    exact resolveAll_current _ hk raw p hp
+  intro e he t htm
+  simp only [learn, Info.addTablet, Table.addTablet] at he
+  have hcur : ∀ u ∈ ((alGet spec cs.info.tables).getD Table.empty).tablets,
+      Current (nodesOf cs.known) u ∧ DcOk u := by
+    cases hg : alGet spec cs.info.tables with
+    | none => intro u hu; simp [Table.empty] at hu
+    | some c => intro u hu; exact ht _ (alGet_mem _ _ _ hg) u hu
+  split at he
+  · rename_i l hl
+    rcases mem_alSet _ _ _ e he with rfl | hm
+    · simp only [addTabletList] at hl
+      split at hl
+      · cases hl
+        rcases List.mem_append.mp htm with hx | hx
+        · exact hcur t (List.mem_of_mem_take hx)
+        · rcases List.mem_cons.mp hx with rfl | hx
+          · exact hnew
+          · exact hcur t (List.mem_of_mem_drop hx)
+      · cases hl
+    · exact ht e hm t htm
+  · rcases mem_alSet _ _ _ e he with rfl | hm
+    · exact hcur t htm
+    · exact ht e hm t htm
+
+inductive COp where
+  | learn (ks table : String) (first last : Int) (raw : List (Nat × Nat))
+  | refresh (peers : List Peer) (keyspaces : List (String × Bool × List String))
+
+def cstep (cs : CState) : COp → CState
+  | .learn ks tb f l raw => (learn cs (ks, tb) f l raw).1
+  | .refresh peers kss => refresh cs peers kss
+
+def crun (ops : List COp) : CState := ops.foldl cstep CState.init
+
+theorem stateOk_run (ops : List COp) : StateOk (crun ops) := by
+  have key : ∀ (ops : List COp) (cs : CState), StateOk cs → StateOk (ops.foldl cstep cs) := by
+    intro ops
+    induction ops with
+    | nil => intro cs h; exact h
+    | cons op ops ih =>
+      intro cs h
+      simp only [List.foldl_cons]
+      apply ih
+      cases op with
+      | learn ks tb f l raw => exact stateOk_learn cs h (ks, tb) f l raw
+      | refresh peers kss => exact stateOk_refresh cs h peers kss
+  exact key ops _ stateOk_init
+
+private theorem lookup_mem {xs : List Tablet} {tok : Int} {t : Tablet} (h : tabletForToken xs tok = some t) : t ∈ xs := by
+  unfold tabletForToken at h
+  simp only [] at h
+  split at h
+  · rename_i u hu
+    split at h
+    · cases h; exact List.mem_of_getElem? hu
+    · cases h
+  · cases h
+
+/-- **No stale node is ever served**: after every history of learnt tablets and metadata refreshes, every
+replica answered for any token of any table — in full or restricted to a datacenter — is a member of the current
+`known_nodes` and the very `Node` object registered there. -/
+theorem refresh_lookups_current (ops : List COp) (spec : String × String) (tbl : Table)
+    (hm : (spec, tbl) ∈ (crun ops).info.tables) (tok : Int) :
+    (∀ reps, replicasForToken tbl.tablets tok = some reps →
+      ∀ p ∈ reps, alGet p.1.hostId (nodesOf (crun ops).known) = some p.1) ∧
+    (∀ dc reps, dcReplicasForToken tbl.tablets tok dc = some reps →
+      ∀ p ∈ reps, alGet p.1.hostId (nodesOf (crun ops).known) = some p.1 ∧ p.1.dc = some dc) := by
+  have hs := (stateOk_run ops).2 (spec, tbl) hm
+  constructor
+  · intro reps hr p hp
+    simp only [replicasForToken, Option.map_eq_some_iff] at hr
+    obtain ⟨t, hl, rfl⟩ := hr
+    exact (hs t (lookup_mem hl)).1 p hp
+  · intro dc reps hr p hp
+    simp only [dcReplicasForToken, Option.map_eq_some_iff] at hr
+    obtain ⟨t, hl, rfl⟩ := hr
+    obtain ⟨hc, hd⟩ := hs t (lookup_mem hl)
+    rw [hd dc] at hp
+    obtain ⟨a, b⟩ := List.mem_filter.mp hp
+    exact ⟨hc p a, by simpa using b⟩
+
+private theorem mem_foldl_empties (kss : List (String × Bool × List String)) :
+    ∀ (acc : List ((String × String) × Table)) (e : (String × String) × Table), e ∈ acc →
+      e ∈ kss.foldl (fun acc ks =>
+        if ks.2.1 then ks.2.2.foldl (fun acc tb =>
+          match alGet (ks.1, tb) acc with
+          | some _ => acc
+          | none => acc ++ [((ks.1, tb), Table.empty)]) acc
+        else acc) acc := by
+  induction kss with
+  | nil => intro acc e he; exact he
+  | cons ks kss ih =>
+    intro acc e he
+    simp only [List.foldl_cons]
+    apply ih
+    split
+    · have inner : ∀ (tbs : List String) (acc : List ((String × String) × Table)), e ∈ acc →
+          e ∈ tbs.foldl (fun acc tb =>
+            match alGet (ks.1, tb) acc with
+            | some _ => acc
+            | none => acc ++ [((ks.1, tb), Table.empty)]) acc := by
+        intro tbs
+        induction tbs with
+        | nil => intro acc h; exact h
+        | cons tb tbs ih2 =>
+          intro acc h
+          simp only [List.foldl_cons]
+          apply ih2
+          split
+          · exact h
+          · exact List.mem_append_left _ h
+      exact inner _ acc he
+    · exact he
+
+/-- **Tablets untouched by the refresh are preserved**: a fully resolved tablet all of whose replicas are still
+hosts of the new `known_nodes` with the same `Node` object (none removed, none re-created), in a table that is
+still a table of a tablet keyspace, is still in that table after the refresh. -/
+theorem refresh_preserves_untouched (cs : CState) (peers : List Peer) (kss : List (String × Bool × List String))
+    (ks tb : String) (tbl : Table) (t : Tablet)
+    (hmem : ((ks, tb), tbl) ∈ cs.info.tables) (ht : t ∈ tbl.tablets)
+    (hks : ∃ tables, alGet ks kss = some (true, tables) ∧ tables.contains tb = true)
+    (hres : t.failed = none)
+    (hun : ∀ p ∈ t.replicas.all, alGet p.1.hostId (nodesOf (refresh cs peers kss).known) = some p.1) :
+    ∃ tbl', ((ks, tb), tbl') ∈ (refresh cs peers kss).info.tables ∧ t ∈ tbl'.tablets := by
+  obtain ⟨tables, hk1, hk2⟩ := hks
+  -- the table-level fact
+  have htab : t ∈ (tbl.maintenance (removedNodes cs.known (newTopology cs.known cs.gen peers).1)
+      (nodesOf (newTopology cs.known cs.gen peers).1) (recreatedNodes cs.known (newTopology cs.known cs.gen peers).1)).tablets := by
+    have hun' : ∀ p ∈ t.replicas.all, alGet p.1.hostId (nodesOf (newTopology cs.known cs.gen peers).1) = some p.1 := hun
+    generalize (newTopology cs.known cs.gen peers).1 = new at hun'
+    unfold Table.maintenance
+    simp only []
+    have s1 : t ∈ (if tbl.hasUnknown = true then tbl.tablets.filterMap (reResolve (fun id => alGet id (nodesOf new))) else tbl.tablets) := by
+      split
+      · exact List.mem_filterMap.mpr ⟨t, ht, by simp [reResolve, hres]⟩
+      · exact ht
+    generalize (if tbl.hasUnknown = true then tbl.tablets.filterMap (reResolve (fun id => alGet id (nodesOf new))) else tbl.tablets) = l1 at s1
+    have s2 : t ∈ (if (removedNodes cs.known new).isEmpty = true then l1 else l1.filter (fun t => !touchesRemoved (removedNodes cs.known new) t)) := by
+      split
+      · exact s1
+      · refine List.mem_filter.mpr ⟨s1, ?_⟩
+        cases htr : touchesRemoved (removedNodes cs.known new) t
+        · rfl
+        · exfalso
+          simp only [touchesRemoved, List.any_eq_true] at htr
+          obtain ⟨p, hp, hc⟩ := htr
+          have hrm : p.1.hostId ∈ removedNodes cs.known new := by simpa using hc
+          simp only [removedNodes, List.mem_filter] at hrm
+          have := hun' p hp
+          rw [alGet_nodesOf] at this
+          cases hn : alGet p.1.hostId new with
+          | none => rw [hn] at this; cases this
+          | some n => rw [hn] at hrm; simp at hrm
+    generalize (if (removedNodes cs.known new).isEmpty = true then l1 else l1.filter (fun t => !touchesRemoved (removedNodes cs.known new) t)) = l2 at s2
+    split
+    · exact s2
+    · refine List.mem_map.mpr ⟨t, s2, ?_⟩
+      apply updateStale_eq_self
+      intro p hp n hg
+      have hm := alGet_mem _ _ _ hg
+      simp only [recreatedNodes, List.mem_filterMap] at hm
+      obtain ⟨e, _, he⟩ := hm
+      have hcur := hun' p hp
+      rw [alGet_nodesOf] at hcur
+      split at he
+      · rename_i kn hkn
+        split at he
+        · simp only [Option.some.injEq, Prod.mk.injEq] at he
+          obtain ⟨h1, h2⟩ := he
+          rw [h1] at hkn
+          rw [hkn] at hcur
+          simp only [Option.map_some, Option.some.injEq] at hcur
+          rw [← h2, hcur]
+        · cases he
+      · cases he
+  simp only [refresh, performTabletsMaintenance, Info.maintenance]
+  have hkept : ((ks, tb), tbl) ∈ cs.info.tables.filter (fun e =>
+      match alGet e.1.1 kss with
+      | none => false
+      | some (tabletBased, tables) => tabletBased && tables.contains e.1.2) := by
+    refine List.mem_filter.mpr ⟨hmem, ?_⟩
+    simp only [hk1, hk2, Bool.and_self]
+  have hwith := mem_foldl_empties kss _ _ hkept
+  split
+  · exact ⟨_, List.mem_map.mpr ⟨((ks, tb), tbl), hwith, rfl⟩, htab⟩
+  · exact ⟨tbl, hwith, ht⟩
+
+-- non-vacuity: host 2 is REPLACED by host 4 in one refresh (the node map keeps its size), host 3 changes its address
+private def pr (id : Nat) (dc : String) (addr : Nat) : Peer := ⟨id, some dc, none, addr, false⟩
+private def cs0 : CState := crun [.refresh [pr 1 "dc1" 0, pr 2 "dc1" 1, pr 3 "dc2" 2] [("k0", true, ["t0"])],
+  .learn "k0" "t0" 0 5 [(1, 0), (3, 1)], .learn "k0" "t0" 6 9 [(2, 0), (3, 0)]]
+private def cs1 : CState := refresh cs0 [pr 1 "dc1" 0, pr 4 "dc1" 1, pr 3 "dc2" 7] [("k0", true, ["t0"])]
+example : (cs0.info.tables.map fun e => e.2.tablets.map fun t => (t.first, t.last, t.replicas.all.map fun p => (p.1.hostId, p.1.gen)))
+    = [[(0, 5, [(1, 0), (3, 2)]), (6, 9, [(2, 1), (3, 2)])]] := by decide
+example : removedNodes cs0.known cs1.known = [2] ∧ (recreatedNodes cs0.known cs1.known).map (·.1) = [3] ∧
+    (cs1.info.tables.map fun e => e.2.tablets.map fun t => (t.first, t.last, t.replicas.all.map fun p => (p.1.hostId, p.1.gen)))
+      = [[(0, 5, [(1, 0), (3, 4)])]] := by decide
+
+end Refresh
 
 end ScyllaVerif.Props.C15
